@@ -300,6 +300,101 @@ def srecline_fn(stype, ndata):
 
 
 # ------------------------------------------------------------------ driver
+# ------------------------------------------------------------------ PE / COFF headers
+# (offset in PE32, size, offset in PE32+, size) of the optional header fields, from the PE/COFF specification
+PE_NT = {"Signature": (0, 4, 0, 4), "Machine": (4, 2, 4, 2), "NumberOfSections": (6, 2, 6, 2), "TimeDateStamp": (8, 4, 8, 4), "PointerToSymbolTable": (12, 4, 12, 4),
+         "NumberOfSymbols": (16, 4, 16, 4), "SizeOfOptionalHeader": (20, 2, 20, 2), "Characteristics": (22, 2, 22, 2)}
+PE_OPT = {"Magic": (0, 2, 0, 2), "MajorLinkerVersion": (2, 1, 2, 1), "MinorLinkerVersion": (3, 1, 3, 1), "SizeOfCode": (4, 4, 4, 4), "SizeOfInitializedData": (8, 4, 8, 4),
+          "SizeOfUninitializedData": (12, 4, 12, 4), "AddressOfEntryPoint": (16, 4, 16, 4), "BaseOfCode": (20, 4, 20, 4), "BaseOfData": (24, 4, None, None),
+          "ImageBase": (28, 4, 24, 8), "SectionAlignment": (32, 4, 32, 4), "FileAlignment": (36, 4, 36, 4), "MajorOperatingSystemVersion": (40, 2, 40, 2),
+          "MinorOperatingSystemVersion": (42, 2, 42, 2), "MajorImageVersion": (44, 2, 44, 2), "MinorImageVersion": (46, 2, 46, 2), "MajorSubsystemVersion": (48, 2, 48, 2),
+          "MinorSubsystemVersion": (50, 2, 50, 2), "Win32VersionValue": (52, 4, 52, 4), "SizeOfImage": (56, 4, 56, 4), "SizeOfHeaders": (60, 4, 60, 4), "CheckSum": (64, 4, 64, 4),
+          "Subsystem": (68, 2, 68, 2), "DllCharacteristics": (70, 2, 70, 2), "SizeOfStackReserve": (72, 4, 72, 8), "SizeOfStackCommit": (76, 4, 80, 8),
+          "SizeOfHeapReserve": (80, 4, 88, 8), "SizeOfHeapCommit": (84, 4, 96, 8), "LoaderFlags": (88, 4, 104, 4), "NumberOfRvaAndSizes": (92, 4, 108, 4)}
+PE_SEC = {"VirtualSize": (8, 4, 8, 4), "RVA": (12, 4, 12, 4), "SizeOfRawData": (16, 4, 16, 4), "PointerToRawData": (20, 4, 20, 4), "PointerToRelocations": (24, 4, 24, 4),
+          "PointerToLineNumbers": (28, 4, 28, 4), "NumberOfRelocations": (32, 2, 32, 2), "NumberOfLineNumbers": (34, 2, 34, 2), "Characteristics": (36, 4, 36, 4)}
+PE_OPTSIZE = {False: 224, True: 240}
+
+
+def pe_fn(plus, nsec):
+    """PE32 (plus=False) / PE32+ header set with nsec sections: DOS header, signature, file header, optional header with 16
+    empty data directories, section table.  Everything that does not steer where things are read is symbolic."""
+    from amoco.system import pe as PE
+    lfanew = 64
+    nt0 = lfanew
+    opt0 = nt0 + 24
+    sec0 = opt0 + PE_OPTSIZE[plus]
+    n = sec0 + 40 * nsec
+
+    def fn(E):
+        content = list(E.sym_bytes("b", n))
+
+        def fix(off, bs):
+            for k, v in enumerate(bs):
+                E.assume(symx.zterm(content[off + k], 8) == v)
+                content[off + k] = v
+        fix(0, b"MZ")
+        fix(60, (lfanew).to_bytes(4, "little"))
+        fix(nt0, b"PE\0\0")
+        fix(nt0 + 6, nsec.to_bytes(2, "little"))
+        fix(nt0 + 20, PE_OPTSIZE[plus].to_bytes(2, "little"))
+        fix(opt0, (0x20B if plus else 0x10B).to_bytes(2, "little"))
+        nrva = PE_OPT["NumberOfRvaAndSizes"]
+        fix(opt0 + (nrva[2] if plus else nrva[0]), (16).to_bytes(4, "little"))
+        d0 = opt0 + (112 if plus else 96)
+        fix(d0, bytes(128))  # the 16 data directories are empty: no import / export / TLS tables to follow
+        for k in range(nsec):
+            fix(sec0 + 40 * k, (b".sec%d" % k).ljust(8, b"\0"))
+        f = SC.DataIO(symx.SymFile(content))
+        p = PE.PE(f)
+        E.prove(eq(p.DOS.e_lfanew, lfanew), "DOS.e_lfanew")
+        for name, spec in PE_NT.items():
+            E.prove(eq(getattr(p.NT, name), fld(content, nt0, spec, plus, False)), "COFF header field %s" % name)
+        for name, spec in PE_OPT.items():
+            if plus and spec[2] is None:
+                continue
+            E.prove(eq(getattr(p.Opt, name), fld(content, opt0, spec, plus, False)), "optional header field %s" % name)
+        E.prove(len(p.sections) == nsec, "number of sections %d, file has %d" % (len(p.sections), nsec))
+        for k, S in enumerate(p.sections[:nsec]):
+            for name, spec in PE_SEC.items():
+                E.prove(eq(getattr(S, name), fld(content, sec0 + 40 * k, spec, plus, False)), "section %d field %s" % (k, name))
+        ep = p.entrypoints
+        aoe = symx.zterm(fld(content, opt0, PE_OPT["AddressOfEntryPoint"], plus, False), 72)
+        ib = symx.zterm(fld(content, opt0, PE_OPT["ImageBase"], plus, False), 72)
+        E.prove(len(ep) >= 1 and (symx.zterm(ep[0], 72) == aoe + ib), "entry point == ImageBase + AddressOfEntryPoint")
+        if nsec:
+            # rva -> (section, offset): the first section (not LNK_REMOVE) whose [RVA, RVA+VirtualSize) holds it
+            rva = E.sym("rva", 32)
+            sgot, ogot = p.locate(rva)
+            at = symx.zterm(rva, 40)
+            hit_any = z3.BoolVal(False)
+            want_idx = z3.BitVecVal(255, 8)
+            want_off = z3.BitVecVal(0, 40)
+            for k in reversed(range(nsec)):
+                base = sec0 + 40 * k
+                ch = symx.zterm(fld(content, base, PE_SEC["Characteristics"], plus, False), 32)
+                va = symx.zterm(fld(content, base, PE_SEC["RVA"], plus, False), 40)
+                vs = symx.zterm(fld(content, base, PE_SEC["VirtualSize"], plus, False), 40)
+                hit = z3.And(ch != 0x800, z3.ULE(va, at), z3.ULT(at, va + vs))
+                hit_any = z3.Or(hit_any, hit)
+                want_idx = z3.If(hit, z3.BitVecVal(k, 8), want_idx)
+                want_off = z3.If(hit, at - va, want_off)
+            if sgot is None or (isinstance(sgot, int) and sgot == 0):
+                E.prove(z3.Not(hit_any), "locate(rva) finds no section although a section's [RVA, RVA+VirtualSize) holds the address")
+            else:
+                idx = [j for j, S in enumerate(p.sections) if S is sgot]
+                j = idx[0] if idx else 255
+                E.prove(z3.And(hit_any, want_idx == j, symx.zterm(ogot, 40) == want_off), "locate(rva) != (first section holding the address, rva - section.RVA)")
+                if idx:
+                    fo = p.getfileoffset(rva + p.basemap)
+                    praw = symx.zterm(fld(content, sec0 + 40 * j, PE_SEC["PointerToRawData"], plus, False), 72)
+                    E.prove(symx.zterm(fo, 72) == praw + z3.ZeroExt(32, symx.zterm(ogot, 40)), "getfileoffset(ImageBase + rva) != PointerToRawData + (rva - section.RVA)")
+        return n
+
+    return fn, n
+
+
+
 def items(tier, seed):
     out = []
     cases = [(x64, be, nph, nsh) for x64 in (False, True) for be in (False, True) for nph in (0, 1, 2) for nsh in (0, 1, 2)]
@@ -314,6 +409,8 @@ def items(tier, seed):
     # a program header of a type amoco does not know, before / after a known one
     for c in ([(False, False, 2, 0, 0), (True, False, 2, 0, 1)] if tier == "quick" else [(x64, be, 2, 0, u) for x64 in (False, True) for be in (False, True) for u in (0, 1)] + [(True, False, 2, 1, 0)]):
         out.append(("elf",) + c + (tier,))
+    for plus, nsec in (((False, 1), (True, 2)) if tier == "quick" else ((False, 0), (False, 1), (False, 2), (True, 0), (True, 1), (True, 2))):
+        out.append(("pe", plus, nsec, tier))
     for nd in ((0, 2) if tier == "quick" else (0, 1, 2, 4)):
         out.append(("hex", nd, tier))
     for st, nd in (((1, 2), (9, 0), (3, 1)) if tier == "quick" else ((0, 2), (1, 0), (1, 2), (2, 1), (3, 2), (5, 0), (7, 0), (8, 0), (9, 0))):
@@ -331,6 +428,11 @@ def run_item(item):
         unk = item[5] if len(item) > 6 else None
         fn, n = elf_fn(x64, be, nph, nsh, unk)
         label = "elf%d%s:ph%d:sh%d%s" % (64 if x64 else 32, "be" if be else "le", nph, nsh, "" if unk is None else ":unknown-type@%d" % unk)
+        caps = dict(index=None, seek=4, hash=8, format=4, str=4)
+        pfx = "b"
+    elif kind == "pe":
+        fn, n = pe_fn(item[1], item[2])
+        label = "pe32%s:sec%d" % ("+" if item[1] else "", item[2])
         caps = dict(index=None, seek=4, hash=8, format=4, str=4)
         pfx = "b"
     elif kind == "hex":
@@ -392,6 +494,8 @@ def replay(rep):
     kind = item[0]
     if kind == "elf":
         fn, n = elf_fn(item[1], item[2], item[3], item[4], item[5] if len(item) > 6 else None)
+    elif kind == "pe":
+        fn, n = pe_fn(item[1], item[2])
     elif kind == "hex":
         fn, n = hexline_fn(item[1])
     else:
